@@ -27,7 +27,8 @@ AesInvOk == AesInv[0] = 0 /\ \A a \in 1..255 : AesGMul(a, AesInv[a]) = 1
 AesRotl8(x, n) == ((x * (2 ^ n)) % 256) + (x \div (2 ^ (8 - n)))
 AesAffine(b) == ((((b ^^ AesRotl8(b, 1)) ^^ AesRotl8(b, 2)) ^^ AesRotl8(b, 3)) ^^ AesRotl8(b, 4)) ^^ 99
 AesSBox == [a \in 0..255 |-> AesAffine(AesInv[a])]
-AesInvSBox == [y \in 0..255 |-> CHOOSE a \in 0..255 : AesSBox[a] = y]       \* 5.3.2: the inverse permutation
+\* 5.3.2: the inverse permutation (AesInvSBox[AesSBox[a]] = a), built entry by entry
+AesInvSBox == FoldLeft(LAMBDA f, k : [f EXCEPT ![AesSBox[k - 1]] = k - 1], [y \in 0..255 |-> 0], Upto(256))
 AesMul2 == [a \in 0..255 |-> AesXtime(a)]
 AesMul3 == [a \in 0..255 |-> AesXtime(a) ^^ a]
 AesMul9 == [a \in 0..255 |-> AesGMul(a, 9)]
